@@ -273,9 +273,13 @@ def main(tier, replay, t0):
                                           rec["on"].get("kind") or rec["on"]["r"])
             outcomes[key] = outcomes.get(key, 0) + 1
             if rec.get("i", -1) == -1:
-                # unmutated corpus member
-                if rec["off"]["r"] != "ok" and rec.get("ref_valid") == "ok":
-                    pass
+                # unmutated corpus member: the framework's own shaders must be valid WGSL
+                base = rec.get("parent", "")[3:]
+                if os.path.exists(os.path.join(core.VERIF, "gen", "corpus", base)) and \
+                        (rec.get("ref_parse") != "ok" or rec.get("ref_valid") != "ok"):
+                    raise core.Inconclusive("harness fault: gen/corpus/%s is not valid WGSL "
+                                            "(%s/%s)" % (base, rec.get("ref_parse"),
+                                                         rec.get("ref_valid_err")))
             if rec.get("muts") and "noop" not in rec["muts"]:
                 distinct.add(rec.get("src_sha"))
             judge(rec, viol, stats, "fuzz")
